@@ -631,6 +631,11 @@ func generate(pkg *packages.Package, cf *ContractFile) (string, map[string]*Func
 	infos := map[string]*FuncInfo{}
 	specNames := map[string]bool{}
 	for _, s := range cf.Specs {
+		bare := s.Name
+		if i := strings.Index(bare, "["); i >= 0 {
+			bare = bare[:i]
+		}
+		specNames[bare] = true
 		specNames[s.Name] = true
 		fmt.Fprintf(&g.buf, "// spec (contract line %d)\nfunc %s(%s) %s { return %s }\n", s.Line, s.Name, s.Params, s.Ret, rewriteExpr(s.Expr))
 	}
